@@ -1,4 +1,4 @@
-HOOK_COMMITS = ["02bc05e", "18a3dee", "c34a517", "1653682", "8fdc782", "1eb066b", "8c4ff0b"]
+HOOK_COMMITS = ["02bc05e", "18a3dee", "c34a517", "1653682", "8fdc782", "1eb066b", "8c4ff0b", "c0c5b94"]
 NOT_APPLICABLE = {}
 TEXT = {
  "C17": {
